@@ -2,7 +2,10 @@ package netsim
 
 import (
 	"fmt"
+	"os"
 	"time"
+
+	"github.com/kardiachain/go-kardia/types"
 
 	"verifharness/core"
 )
@@ -15,7 +18,44 @@ func RandomCase(c *core.Case, prop string, maxN int, prefixMax int) {
 	r, run := c.R, c.Run
 	cfg := RandomCfg(r, maxN)
 	t0 := time.Now()
-	net, err := NewNet(NetOpts{N: cfg.N, Powers: cfg.Powers, Byz: cfg.Byz})
+	// a third of the cases script validator-set changes (power rises of correct validators, so that the adversary
+	// stays below 1/3), applied identically by every node on top of what the staking application returns
+	var sched ValSchedule
+	if cfg.N >= 2 && r.Intn(3) == 0 {
+		byz := map[int]bool{}
+		for _, b := range cfg.Byz {
+			byz[b] = true
+		}
+		var correct []int
+		for i := 0; i < cfg.N; i++ {
+			if !byz[i] {
+				correct = append(correct, i)
+			}
+		}
+		k1, k2 := correct[r.Intn(len(correct))], correct[r.Intn(len(correct))]
+		h1, h2 := uint64(1+r.Intn(3)), uint64(2+r.Intn(3))
+		a1, a2 := Addr(Key(k1)), Addr(Key(k2))
+		sched = func(h uint64, vals []*types.Validator) []*types.Validator {
+			if len(vals) == 0 {
+				return vals
+			}
+			out := make([]*types.Validator, len(vals))
+			for i, v := range vals {
+				out[i] = v.Copy()
+				if h >= h1 && v.Address == a1 {
+					out[i].VotingPower += 7 * PowerUnit
+				}
+				if h >= h2 && v.Address == a2 {
+					out[i].VotingPower += 13 * PowerUnit
+				}
+			}
+			return out
+		}
+		cfg.Label += fmt.Sprintf(" valchange(v%d@%d,v%d@%d)", k1, h1, k2, h2)
+		run.Count("cases_with_validator_set_changes", 1)
+	}
+	restarts := r.Intn(3) == 0
+	net, err := NewNet(NetOpts{N: cfg.N, Powers: cfg.Powers, Byz: cfg.Byz, Node: func(i int) NodeOpts { return NodeOpts{Sched: sched} }})
 	if err != nil {
 		if prop == "C04" {
 			c.Violation("fresh-network-build-fails", err.Error(), cfg)
@@ -36,6 +76,7 @@ func RandomCase(c *core.Case, prop string, maxN int, prefixMax int) {
 		}
 		return
 	}
+	net.AllowRestarts = restarts
 	adv := NewAdversary(net)
 	steps := 50 + r.Intn(prefixMax)
 	for i := 0; i < steps; i++ {
@@ -82,9 +123,15 @@ func RandomCase(c *core.Case, prop string, maxN int, prefixMax int) {
 			c.Violation(a.Key, a.What, map[string]interface{}{"cfg": cfg, "detail": wit})
 		} else {
 			run.Count("alarm_of_other_property:"+a.Prop+":"+a.Key, 1)
+			if os.Getenv("VERIF_SHOW_OTHER") != "" {
+				fmt.Fprintf(os.Stderr, "OTHER case %d %s %s: %s\n", c.I, a.Prop, a.Key, a.What)
+			}
 		}
 	}
 	if prop == "C04" {
+		for _, e := range net.RestartErrs {
+			c.Violation("clean-restart-fails", e, w)
+		}
 		for _, n := range net.Correct() {
 			if n.Dead {
 				c.Violation("consensus-loop-terminated", fmt.Sprintf("node %d: %s", n.Idx, n.DeadWhy), w)
